@@ -775,6 +775,44 @@ def reach_under(cfg, funcnode, env, exc=True, avoid=()):
     return seen
 
 
+def reach_with_flags(cfg, start_ids, avoid=(), exc=False):
+    """nodes reachable from start_ids (not entering `avoid`) when locals that are bound to a constant on the way (`ok = False`)
+    are remembered and the tests they decide (`if not ok:`) are followed on the decided side only - the result flag idiom of a
+    helper that reports success, read path sensitively"""
+    avoid = set(avoid)
+    seen, out = set(), set()
+    stack = [(n, frozenset()) for n in start_ids]
+    while stack:
+        n, env = stack.pop()
+        if (n, env) in seen or n in avoid:
+            continue
+        seen.add((n, env))
+        out.add(n)
+        t = cfg.nodes[n]
+        a = t.ast
+        envd = dict(env)
+        known = None
+        if t.kind == 'test' and not isinstance(a, ast.stmt):
+            known = eval_under(a, envd, None)
+        elif isinstance(a, ast.Assign) and t.kind not in ('test',):
+            for tg in a.targets:
+                for x in ast.walk(tg):
+                    if isinstance(x, ast.Name):
+                        envd.pop(x.id, None)
+            if len(a.targets) == 1 and isinstance(a.targets[0], ast.Name) and isinstance(a.value, ast.Constant):
+                envd[a.targets[0].id] = bool(a.value.value)
+        elif isinstance(a, (ast.AugAssign, ast.For, ast.AsyncFor, ast.With)):
+            for x in ast.walk(a.target if hasattr(a, 'target') else a):
+                if isinstance(x, ast.Name) and isinstance(x.ctx, ast.Store):
+                    envd.pop(x.id, None)
+        nenv = frozenset(envd.items())
+        for b, lab in cfg.succ[n]:
+            if (lab == 'exc' and not exc) or (known is True and lab == 'F') or (known is False and lab == 'T'):
+                continue
+            stack.append((b, nenv))
+    return out
+
+
 def value_returned_under(cfg, funcnode, assign, name, env):
     """the value bound to the local `name` by statement `assign` is returned although it has the properties fixed in env
     (atoms as for eval_under, e.g. {'ret is None': False, 'callable(ret)': False}): the return statements reached with the
